@@ -307,6 +307,14 @@ def classify(lines, idx, verdict):
                             any(r[0] == ">" for r in (rr or []) + r2):
                         tags.append("exact_union_denied_open_bound_involved")
             if "lhs_ge2_vars" in tags and "recv_SPR" in tags: tags.append("lhs_ge2_vars_recv_reduced")
+            if "refine_ge_unit_coefficient_on_later_var" in tags:
+                try:
+                    v0, us = refine_ge_candidates(name, op[3:], n)
+                    def has_lb(u):
+                        return any(len(nonzero(r[2])) == 1 and r[2][u] != 0 and (r[0] == "=" or r[2][u] > 0) for r in (rr or []))
+                    if any(not has_lb(u) for u in us): tags.append("refine_ge_later_var_unbounded_below")
+                except Exception:
+                    pass
             if kind == "box" and "T_float" in tags and name in ("refine_cons", "refine_cgs", "add_cgs", "bnd_img", "bnd_pre", "gen_img", "gen_img2", "gen_pre", "gen_pre2"):
                 tags.append("float_propagation_via_refine")     # these call refine_with_constraint / propagate_constraint_no_check
             tags += arg_number_tags(op[3:], tname, tags)
@@ -321,6 +329,16 @@ def classify(lines, idx, verdict):
                 pass
         if t[0] == "res" and t[3] != "cons":
             tags.append("reading_" + t[3])
+        # BD_Shape<inexact T>::minimized_constraints prints `v = b' for every member of a zero-equivalence class from one
+        # rounded matrix entry; a class is recognised through a chain of exactly tight pairs, so the second and later
+        # equalities need not hold of the set that constraints() describes
+        if t[0] == "res" and t[3] == "mcons" and oblig == "readings" and kind == "bds" and type_class(tshort) != "rational":
+            try:
+                if sum(1 for r in parse_cs_rows(t[4:], int(t[2]))[0] if r[0] == "=") >= 2:
+                    site = cls + "::minimized_constraints"
+                    tags.append("reduced_reading_ge2_equalities_inexact_T")
+            except Exception:
+                pass
     elif t[0] in ("arg", "obs"):
         # the set changed without a mutator: attribute to the last observer on that slot
         last = None
@@ -334,6 +352,11 @@ def classify(lines, idx, verdict):
         if t[1] in tainted: tags.append("operand_not_OK_after_" + tainted[t[1]])
         try:
             now = parse_cs_rows(t[4:], int(t[2]))[0]
+            if t[0] == "obs" and kind == "bds" and type_class(tshort) != "rational" and sum(1 for r in now if r[0] == "=") >= 2 \
+                    and (t[3] == "mcons" or "SPR" in status_flags(lines, idx, t[1])):
+                # the same reading, taken by an observer (constraints() of a reduced shape is minimized_constraints())
+                site = cls + "::minimized_constraints"
+                tags += ["reading_mcons", "reduced_reading_ge2_equalities_inexact_T"]
             before = rows_of_slot(lines, idx, t[1])
             tags += overflow_tags([now, before], [], tname, cls)
         except Exception:
@@ -474,9 +497,35 @@ def op_tags(name, args, n, kind):
             if any(len(nonzero(r[2])) > 2 for r in rows): tags.append("row_3_vars")
             if any(sum(1 for c in r[2] if c < 0) >= 2 or (r[0] == "=" and len(nonzero(r[2])) >= 2) for r in rows):
                 tags.append("row_two_negative_coefficients")
+        # Octagonal_Shape::refine(var, >=, expr, den) is reached with an expression omitting var; its branch for a single
+        # unbounded variable u > var with coefficient == den writes the cell of `var + u <= sum' (KF: refine_ge_...)
+        if kind == "oct" and name in ("gen_pre", "gen_pre2", "bnd_pre"):
+            cand = refine_ge_candidates(name, args, n)
+            if cand: tags.append("refine_ge_unit_coefficient_on_later_var")
     except Exception:
         tags.append("unparsed_args")
     return tags
+
+
+def refine_ge_candidates(name, args, n):
+    """variables u that Octagonal_Shape::refine(var, >=, expr, den) may pick in its `pinf_count == 1, coefficient == den,
+    pinf_index > var_id' branch: (var, [u...]) or None when the operation does not reach refine(var, >=, ...) that way"""
+    if name == "gen_pre":
+        v, rel, d = int(args[0]), args[1], int(args[2]); (k, a), _ = parse_expr(args[3:], n)
+    elif name == "gen_pre2":
+        rel = args[0]; (k1, a1), rest = parse_expr(args[1:], n); (k, a), _ = parse_expr(rest, n)
+        nz1 = nonzero(a1)
+        if len(nz1) != 1: return None
+        v = nz1[0]; d = a1[v]
+        if d < 0: rel = {"<=": ">=", ">=": "<=", "<": ">", ">": "<"}.get(rel, rel)
+    elif name == "bnd_pre":
+        v, d = int(args[0]), int(args[1]); (k, a), _ = parse_expr(args[2:], n); rel = ">="
+    else:
+        return None
+    nz = nonzero(a)
+    if rel != ">=" or v in nz or len(nz) < 2: return None
+    us = [u for u in nz if u > v and a[u] == d]
+    return (v, us) if us else None
 
 
 def run_driver_parallel(ctx, drv, journal, wd, tag, mode, nproc=14):
